@@ -62,6 +62,10 @@ func main() {
 			os.Exit(5)
 		}
 	}
+	if ms, _ := strconv.Atoi(os.Getenv("VERIF_JOIN_DELAY_MS")); ms > 0 && !config.DoNotJoinCluster {
+		// window between the members recording the join and this process reporting it
+		time.Sleep(time.Duration(ms) * time.Millisecond)
+	}
 	fmt.Println("READY", server.VerifNodeId())
 	usr := make(chan os.Signal, 4)
 	signal.Notify(usr, syscall.SIGUSR1)
